@@ -4,25 +4,54 @@
    Model/Icmp6SpoofKnown.v (what "exactly" means field by field; recorded classes).
    Spec: Spec/RFC4861.v (independent RA decoder). *)
 From PV Require Import Base.Prelude Base.Text Model.Icmp6SpoofRA Model.Icmp6Spoof Spec.RFC4861 Model.Icmp6SpoofKnown
-  Proofs.Icmp6SpoofRA Proofs.Icmp6SpoofDnssl Proofs.Icmp6Spoof.
+  Proofs.Icmp6SpoofRA Proofs.Icmp6SpoofDnssl Proofs.Icmp6Spoof Proofs.Icmp6SpoofStop Proofs.Icmp6SpoofDecided.
+From Coq Require Import Permutation.
 Open Scope N_scope.
 
 (* ------------------------------------------------------------------ *)
-(* C14_confined.  Every forged neighbour advertisement emitted anywhere in any history (any
-   interleaving of StartHunt/StopHunt/Close/loop wake-ups/received RAs, any value of the
-   process-wide RA counter) goes to a MAC that is in the hunt list at emission, while the
-   handler is not closed, after a router has been learned; its target is a learned router's
-   address, bound to our MAC (target link-layer address option and Ethernet source), override
-   set, solicited clear, hop limit 255. *)
+(* C14_confined.  A spoofLoop pass is two kinds of steps: Lookup (under the handler's lock: is the
+   MAC hunted, is the handler open, is a router known; the list of router addresses in the map's
+   iteration order) and one Send per listed address (outside the lock).  For every history (any
+   interleaving of StartHunt/StopHunt/Close/Lookup/Send/received packets, any counter value):
+   (a) a forged advertisement leaves only in a Send step, it is the head of that loop's list, its
+       Ethernet destination is the loop's MAC, its target a learned router's address bound to our MAC
+       (TLLA option and Ethernet source), override set, solicited and router clear, hop limit 255,
+       and a router has been learned (all AT EMISSION); *)
 Theorem C14_confined : forall c rep evs st e l,
-  In (st, e, ONAs l) (fst (run c (init rep) evs)) -> forall n, In n l -> forged_ok c st n.
+  In (st, e, ONAs l) (fst (run c (init rep) evs)) ->
+  exists i lp ip rest, e = Send i /\ nth_error (loops st) i = Some lp /\ l_pending lp = ip :: rest /\
+    l = [forge c (l_dst lp) ip] /\ forged_shape c st (forge c (l_dst lp) ip).
 Proof. exact confined_run. Qed.
 Print Assumptions C14_confined.
+
+(* (b) every advertisement that leaves was put on its loop's list by an earlier Lookup of that loop
+       at which the destination MAC was in the hunt list, the handler was not closed and a router was
+       known (AT DECISION; what can happen between decision and emission is bounded by C14_stop and
+       C14_close below). *)
+Theorem C14_confined_decided : forall c rep evs1 i n,
+  let st := snd (run c (init rep) evs1) in
+  snd (step c st (Send i)) = ONAs [n] ->
+  exists s0 order k, In (s0, Lookup i order, OLook true k) (fst (run c (init rep) evs1)) /\
+    decided_ok s0 (na_eth_dst n).
+Proof. exact sent_was_decided. Qed.
+Print Assumptions C14_confined_decided.
 
 Example C14_confined_nonvacuous :
   exists st e n, In (st, e, ONAs [n]) (fst (run ex_cfg (init (-1)) ex_hist)) /\ na_eth_dst n = ex_mac.
 Proof. exact confined_nonvacuous. Qed.
 Print Assumptions C14_confined_nonvacuous.
+
+(* LANRouters is a Go map: the order in which a pass walks it is a parameter of Lookup, and every
+   theorem here holds for all orders.  For an order that visits every position once, the pass sends
+   to every learned router exactly once. *)
+Theorem C14_pass_covers_all_routers : forall st i order lp,
+  nth_error (loops st) i = Some lp -> l_alive lp = true -> l_pending lp = [] ->
+  al_has (hunt st) (a_mac (l_dst lp)) = true -> closed st = false -> defrouter st <> None ->
+  Permutation order (seq 0 (List.length (routers st))) ->
+  exists lp', nth_error (loops (fst (lookup st i order))) i = Some lp' /\ l_dst lp' = l_dst lp /\
+    Permutation (l_pending lp') (map (fun kr => r_ip (snd kr)) (routers st)).
+Proof. exact lookup_covers. Qed.
+Print Assumptions C14_pass_covers_all_routers.
 
 (* ------------------------------------------------------------------ *)
 (* C14_start_filters *)
@@ -65,32 +94,53 @@ Proof. exact start_filters_nonvacuous. Qed.
 Print Assumptions C14_start_filters_nonvacuous.
 
 (* ------------------------------------------------------------------ *)
-(* C14_stop.  After StopHunt a (address-less or link-local a.ip: a StopHunt with any other
-   address is ignored by design, symmetric with StartHunt), at any point of any history, no
-   forged advertisement goes to a's MAC in any continuation that does not hunt that MAC again.
-   Real-time residue: a loop pass already past its membership check when StopHunt returns. *)
+(* C14_stop.  After StopHunt a (address-less or link-local a.ip: a StopHunt with any other address
+   is ignored by design, symmetric with StartHunt), at any point of any history, in any continuation
+   that does not hunt that MAC again, the forged advertisements that still go to a's MAC are at most
+   the frames already decided when StopHunt returned (those on the lists of the loops aimed at that
+   MAC): the exact real-time residue of the lock discipline. *)
 Theorem C14_stop : forall c rep evs1 a evs2,
   stop_effective a -> no_start (a_mac a) evs2 ->
   let st := snd (run c (init rep) evs1) in
   let st1 := fst (step c st (StopHunt a)) in
-  forall s e l, In (s, e, ONAs l) (fst (run c st1 evs2)) -> forall n, In n l -> bytes_eqb (na_eth_dst n) (a_mac a) = false.
-Proof. exact stop_no_more. Qed.
+  (count_to (a_mac a) (fst (run c st1 evs2)) <= pend_to (a_mac a) (loops st))%nat.
+Proof. exact stop_bound. Qed.
 Print Assumptions C14_stop.
 
-Example C14_stop_nonvacuous :
-  stop_effective (mkAddr ex_mac []) /\ no_start ex_mac ex_hist_stop2 /\
-  (exists s e n, In (s, e, ONAs [n]) (fst (run ex_cfg (init 3) ex_hist_stop1)) /\ na_eth_dst n = ex_mac) /\
-  (exists s e, In (s, e, ONAs []) (fst (run ex_cfg (fst (step ex_cfg (snd (run ex_cfg (init 3) ex_hist_stop1)) (StopHunt (mkAddr ex_mac [])))) ex_hist_stop2))).
-Proof. exact stop_nonvacuous. Qed.
-Print Assumptions C14_stop_nonvacuous.
+(* nothing decided at that moment: nothing ever reaches the host *)
+Theorem C14_stop_quiescent : forall c rep evs1 a evs2,
+  stop_effective a -> no_start (a_mac a) evs2 ->
+  let st := snd (run c (init rep) evs1) in
+  let st1 := fst (step c st (StopHunt a)) in
+  pend_to (a_mac a) (loops st) = 0%nat ->
+  forall s e l, In (s, e, ONAs l) (fst (run c st1 evs2)) -> forall n, In n l -> bytes_eqb (na_eth_dst n) (a_mac a) = false.
+Proof. exact stop_quiescent. Qed.
+Print Assumptions C14_stop_quiescent.
 
-(* After Close nothing is emitted by any loop pass, whatever happens afterwards. *)
+(* the stronger reading "no forged advertisement after StopHunt returns" fails, and the bound is
+   attained: Lookup ; StopHunt ; Send *)
+Theorem C14_stop_strong_refuted : exists c rep evs1 a evs2,
+  stop_effective a /\ no_start (a_mac a) evs2 /\
+  let st := snd (run c (init rep) evs1) in
+  (exists s e n, In (s, e, ONAs [n]) (fst (run c (fst (step c st (StopHunt a))) evs2)) /\ na_eth_dst n = a_mac a) /\
+  count_to (a_mac a) (fst (run c (fst (step c st (StopHunt a))) evs2)) = pend_to (a_mac a) (loops st).
+Proof. exact stop_strong_refuted. Qed.
+Print Assumptions C14_stop_strong_refuted.
+
+(* After Close at most the frames already decided leave, whatever happens afterwards. *)
 Theorem C14_close : forall c rep evs1 evs2,
   let st := snd (run c (init rep) evs1) in
   let st1 := fst (step c st Close) in
-  forall s e l, In (s, e, ONAs l) (fst (run c st1 evs2)) -> l = [].
-Proof. exact close_no_more. Qed.
+  (count_all (fst (run c st1 evs2)) <= pend_all (loops st))%nat.
+Proof. exact close_bound. Qed.
 Print Assumptions C14_close.
+
+Theorem C14_close_strong_refuted : exists c rep evs1 evs2,
+  let st := snd (run c (init rep) evs1) in
+  (exists s e n, In (s, e, ONAs [n]) (fst (run c (fst (step c st Close)) evs2))) /\
+  count_all (fst (run c (fst (step c st Close)) evs2)) = pend_all (loops st).
+Proof. exact close_strong_refuted. Qed.
+Print Assumptions C14_close_strong_refuted.
 
 (* ------------------------------------------------------------------ *)
 (* C14_router_exact.  For EVERY byte string p that the independent decoder accepts as a router
